@@ -22,7 +22,7 @@ use crate::term;
 pub struct C11;
 
 #[derive(Clone, Copy, Debug, PartialEq, Eq)]
-enum K {
+pub enum K {
     Header,
     /// first line of a section that shows the path token (sec)
     HunkHeader,
@@ -33,17 +33,17 @@ enum K {
 }
 
 #[derive(Clone, Debug)]
-struct L {
-    text: String,
-    kind: K,
-    sec: usize,
+pub struct L {
+    pub text: String,
+    pub kind: K,
+    pub sec: usize,
     /// sentinel number for hunk lines
-    id: Option<usize>,
+    pub id: Option<usize>,
 }
 
-struct Case {
-    lines: Vec<L>,
-    n_sections: usize,
+pub struct Case {
+    pub lines: Vec<L>,
+    pub n_sections: usize,
 }
 
 fn run_len(t: &mut Tape, n: usize, allow_big: bool) -> usize {
@@ -56,10 +56,14 @@ fn run_len(t: &mut Tape, n: usize, allow_big: bool) -> usize {
     }
 }
 
-fn gen_case(t: &mut Tape, n: usize) -> Case {
+pub fn gen_case(t: &mut Tape, n: usize) -> Case {
+    gen_case_sized(t, n, 3, 3, 40)
+}
+
+pub fn gen_case_sized(t: &mut Tape, n: usize, max_sec: usize, max_hunks: usize, max_budget: usize) -> Case {
     let o = TextOpts { allow_markerlike: false, allow_long: false, allow_trailing_ws: false, ..TextOpts::all() };
     let mut lines: Vec<L> = Vec::new();
-    let nsec = t.range(1, 3);
+    let nsec = t.range(1, max_sec);
     let mut next_id = 0usize;
     let mut big_left = 1usize;
     for sec in 0..nsec {
@@ -75,12 +79,12 @@ fn gen_case(t: &mut Tape, n: usize) -> Case {
         }
         lines.push(h(format!("--- a/{}", path)));
         lines.push(h(format!("+++ b/{}", path)));
-        let nh = t.range(1, 3);
+        let nh = t.range(1, max_hunks);
         let (mut old, mut new) = (t.range(1, 500), 0usize);
         new += old + t.below(5);
         for _ in 0..nh {
             let mut body: Vec<(K, String)> = Vec::new();
-            let budget = t.range(2, 40);
+            let budget = t.range(2, max_budget);
             let mut first = true;
             while body.len() < budget {
                 let nctx = if first { t.below(3) } else { t.range(1, 3) };
@@ -202,7 +206,7 @@ impl Write for Recorder {
     }
 }
 
-fn tokens_in(visible: &str, into: &mut BTreeSet<usize>, paths: &mut BTreeSet<usize>) {
+pub fn tokens_in(visible: &str, into: &mut BTreeSet<usize>, paths: &mut BTreeSet<usize>) {
     let b = visible.as_bytes();
     let mut i = 0;
     while i < b.len() {
